@@ -144,6 +144,40 @@ func checkC14(t *testing.T, sc C14Sc) Verdict {
 			}); m != "" {
 				_ = m // a panicking typed getter is C15's finding, not C14's
 			}
+		case "mutold":
+			// Mutate, in place, a palette object that the model does not hold at the moment (it was
+			// overwritten, deleted or never stored). No legitimate store - aliasing or copying -
+			// can be affected: whatever it holds under any key equals what the model holds.
+			o := val(op.Val)
+			held := false
+			for _, v := range model {
+				if sameValue(v, o) && reflect.ValueOf(o).Kind() != reflect.Invalid {
+					switch reflect.ValueOf(o).Kind() {
+					case reflect.Map, reflect.Slice, reflect.Ptr:
+						held = true
+					}
+				}
+			}
+			if held {
+				break
+			}
+			switch x := o.(type) {
+			case map[string]any:
+				if _, nested := x["x"].(map[string]any); !nested {
+					x["x"] = 1000 + i
+					classes["mutold-applied"] = true
+				}
+			case []any:
+				if len(x) > 0 {
+					x[0] = 1000 + i
+					classes["mutold-applied"] = true
+				}
+			case []int:
+				if len(x) > 0 {
+					x[0] = 1000 + i
+					classes["mutold-applied"] = true
+				}
+			}
 		case "get", "has", "len":
 			// pure reads: covered by the full agreement check below
 		}
@@ -171,13 +205,13 @@ func checkC14(t *testing.T, sc C14Sc) Verdict {
 
 func genC14(rt *rapid.T) C14Sc {
 	n := rapid.IntRange(1, 200).Draw(rt, "n")
-	ops := []string{"set", "set", "set", "delete", "clear", "merge", "merge", "mergesnap", "getall", "keys", "mutsnap", "mutsnap", "mutkeys", "get", "typed"}
+	ops := []string{"set", "set", "set", "delete", "clear", "merge", "merge", "mergesnap", "getall", "keys", "mutsnap", "mutsnap", "mutkeys", "get", "typed", "mutold"}
 	var sc C14Sc
 	key := func(l string) string { return storeKeys[uniform(rt, len(storeKeys), l)] }
 	for i := 0; i < n; i++ {
 		op := StoreOp{Op: ops[uniform(rt, len(ops), "op")]}
 		switch op.Op {
-		case "set", "delete", "get", "typed":
+		case "set", "delete", "get", "typed", "mutold":
 			op.Key = key("key")
 			op.Val = rapid.IntRange(0, 25).Draw(rt, "val")
 		case "merge":
